@@ -37,6 +37,12 @@ use crate::{alloc, surgery, walk};
 pub const STEP_BASE: u64 = 50_000_000;
 pub const STEP_PER_BYTE: u64 = 2_000;
 pub const HEAP_BUDGET: usize = 512 << 20;
+/// CPU-time budget of one op: catches loops that neither read, allocate nor call back (invisible
+/// to the step clock) long before the wall-clock watchdog. Thread CPU time, not wall time, so a
+/// loaded machine does not matter; two orders of magnitude above the fault-free maxima recorded
+/// in evidence. The measured value never enters the event log.
+pub const CPU_BASE_US: u64 = 2_500_000;
+pub const CPU_PER_BYTE_US: u64 = 1;
 
 #[derive(Clone, Debug)]
 pub struct Violation {
@@ -1478,7 +1484,9 @@ pub fn run_trace(
         allsorts::verif::set_step_limit(limit);
         crate::util::reset_ticks(limit);
         let mut extra = Extra::default();
+        let cpu0 = crate::util::thread_cpu_us();
         let result = guard(|| world.exec(op, &mut extra));
+        let cpu_us = crate::util::thread_cpu_us().saturating_sub(cpu0);
         let steps = allsorts::verif::steps();
         let rejections = allsorts::verif::eof_rejections();
         allsorts::verif::set_step_limit(u64::MAX);
@@ -1489,7 +1497,9 @@ pub fn run_trace(
         stats.bump(&format!("op.{}", op.kind()));
         if fault_free {
             stats.max(&format!("fault_free_max_steps.{}", op.kind()), steps);
+            stats.max(&format!("fault_free_max_cpu_us.{}", op.kind()), cpu_us);
         }
+        stats.max("max_cpu_us", cpu_us);
         let (class, canon) = match &result {
             Ok(out) => (out.class.clone(), out.canon.clone()),
             Err(p) => (
@@ -1548,6 +1558,31 @@ pub fn run_trace(
                 v.property = "C14".into();
             }
             if mine {
+                report.violations.push(v);
+            } else {
+                report.foreign.push(v);
+            }
+            stop = true;
+        }
+
+        // ---- oracle 1b (C01/C02): CPU time out of proportion (compute-only loops)
+        let cpu_limit = CPU_BASE_US + CPU_PER_BYTE_US * (env.font_len as u64 + op.arg_len() as u64);
+        if result.is_ok() && cpu_us > cpu_limit {
+            let v = Violation {
+                property: owner_of(op).to_string(),
+                kind: "cpu".into(),
+                site: format!("cpu-budget:{}", op.kind()),
+                msg: format!(
+                    "op used {} ms of CPU time on a {} byte font (budget {} ms) without exhausting the step budget",
+                    cpu_us / 1000,
+                    env.font_len,
+                    cpu_limit / 1000
+                ),
+                op_index: i,
+                op_kind: op.kind().into(),
+                overflow_profile: false,
+            };
+            if v.property == prop || (prop == "C14" && false) {
                 report.violations.push(v);
             } else {
                 report.foreign.push(v);
